@@ -165,7 +165,8 @@ func (s *Server) setNewInvokeContext(invokeID string, traceID, lambdaSegmentID s
 	s.mutex.Lock()
 	defer s.mutex.Unlock()
 
-	if s.invokeCtx != nil {
+	if s.invokeCtx != nil || s.resetsInProgress > 0 {
+		// reserved, or the previous reservation is still being reset
 		return nil, ErrAlreadyReserved
 	}
 
@@ -429,7 +430,6 @@ func (s *Server) Reset(reason string, timeoutMs int64) (*statejson.ResetDescript
 
 		resetSuccess, resetFailure := s.sandboxContext.Reset(reset)
 		s.Clear() // clear server state to prepare for new invokes
-		s.endReset()
 		s.setRapidPhase(phaseIdle)
 		s.setRuntimeState(runtimeNotStarted)
 
@@ -462,6 +462,7 @@ func (s *Server) Reset(reason string, timeoutMs int64) (*statejson.ResetDescript
 
 	done := <-s.ResetDoneChan
 	s.Release()
+	s.endReset() // only now may the next invoke be reserved
 
 	if done.ErrorType != "" {
 		return nil, errors.New(string(done.ErrorType))
